@@ -72,13 +72,13 @@ class Horizon(Exception):
     """the batch of pre-iterations ran into the resolution horizon (C03 known finding): nothing to judge for C01"""
 
 
-def solve_case(N, bx, r, eps, f_u, density=None, pre=0, coarse=None):
+def solve_case(N, bx, r, eps, f_u, density=None, pre=0, coarse=None, holder=None):
     lo, up = box(bx, N)
     lo_a = np.array(lo)
     w = np.array(up) - lo_a
     order = []
     rec = Recorder(on_iter=lambda pts, sol: order.extend((p.GetX(), p.GetZ()) for p in pts))
-    cfg = dict(N=N, box=bx, r=r, eps=eps, itersLimit=LIMIT, density=density)
+    cfg = dict(N=N, box=bx, r=r, eps=eps, itersLimit=LIMIT, density=density, holder=holder)
     if coarse is not None:
         # two stages on one solver: Solve with a coarse eps and local refinement, then the user tightens
         # parameters.eps and calls Solve again - the second result must be certified for the tighter eps
@@ -138,7 +138,8 @@ def family_case(task):
     m = task.get("density") or 10
     f, L, fstar = family(kind, par, N)
     try:
-        run, sol, order = solve_case(N, bx, r, eps, f, task.get("density"), task.get("pre", 0), task.get("coarse"))
+        run, sol, order = solve_case(N, bx, r, eps, f, task.get("density"), task.get("pre", 0), task.get("coarse"),
+                                      task.get("holder"))
     except Horizon:
         return "resolution_horizon", None, None, 0
     except BaseException as e:
@@ -228,6 +229,15 @@ def plan_families(ctx):
             for eps in (0.01, 0.001):
                 for L, r in ((1.0, 2.0), (3.0, 3.5), (10.0, 8.0)) if th else ((3.0, 3.5),):
                     tasks.append(dict(N=1, box="B0", r=r, eps=eps, kind="zig", par=[list(slopes), L], pre=pre))
+    # a user Problem that returns a new value holder; integer-typed bounds
+    for slopes in itertools.product((-1, 0, 1), repeat=5):
+        for L, r in ((1.0, 2.0), (3.0, 3.5)):
+            tasks.append(dict(N=1, box="B1", r=r, eps=0.01, kind="zig", par=[list(slopes), L], holder="fresh"))
+            tasks.append(dict(N=1, box="Z", r=r, eps=0.01, kind="zig", par=[list(slopes), L]))
+    for c in ((0.0, 0.0), (1.0, 1.0 / 3.0), (0.5, 1.0)):
+        for L, r in ((0.5 * 2.0 / K(2), 2.0), (0.95 * 3.5 / K(2), 3.5)):
+            tasks.append(dict(N=2, box="B1", r=r, eps=0.1, kind="cone", par=[[[0.0, L, list(c)]], 2], holder="fresh"))
+            tasks.append(dict(N=2, box="Z", r=r, eps=0.1, kind="cone", par=[[[0.0, L, list(c)]], 2]))
     # two-stage use of one solver: coarse eps with refinement, then a tighter eps
     for slopes in itertools.product((-1, 0, 1), repeat=5):
         for coarse, eps in ((0.5, 0.01), (0.3, 0.002), (0.15, 0.01)):
